@@ -389,7 +389,7 @@ def _run_isosteric(case, ctx):
     pr = r.choice(RU.PRESSURE_REPR)  # any representation, relative ones included: the enthalpy is defined on absolute pressures
     only_one = r.random() < 0.35  # ... and sometimes only one isotherm of the set is converted
     pick = r.randrange(len(isos))
-    lr = r.choice([("molar", "mol"), ("molar", "cm3(STP)"), ("mass", "g"), ("mass", "mg"), ("molar", "mmol")])
+    lr = r.choice([("molar", "mol"), ("molar", "cm3(STP)"), ("mass", "g"), ("mass", "mg"), ("molar", "mmol"), ("volume_gas", "cm3"), ("volume_liquid", "cm3")])
     tu = r.choice(["K", "°C"])
     twins = []
     for k, iso in enumerate(isos):
@@ -412,13 +412,18 @@ def _run_isosteric(case, ctx):
     from pgverif.core import _h
     ctx.case(["isosteric", _h(info)])
     ctx.count("twins", "isosteric_enthalpy/convert")
+    # mechanism: on a loading basis that depends on temperature (volume of gas / of liquid at the isotherm's own temperature) the
+    # function still takes its isosteres at equal *numbers*, i.e. at different adsorbed amounts for each isotherm
+    tdep = lr[0] in ("volume_gas", "volume_liquid")
     if rb[0] != "ok":
-        ctx.violation("isosteric_enthalpy/raises-after-convert/%s" % type(rb[1]).__name__, "isosteric analysis raises after a common unit conversion", exc=rb[1], **info)
+        ctx.violation("isosteric_enthalpy/temperature-dependent-loading-basis/isosteres-not-at-constant-amount" if tdep else "isosteric_enthalpy/raises-after-convert/%s" % type(rb[1]).__name__,
+                      "isosteric analysis raises after a common unit conversion", exc=rb[1], **info)
         return
     a, b = numpy.asarray(ra[1]["isosteric_enthalpy"], dtype=float), numpy.asarray(rb[1]["isosteric_enthalpy"], dtype=float)
     rt = max(1e-6, RU.rtol_for(lr[1]) * 50)  # the query loadings carry the rounding of the STP constant, amplified by the isotherm slope
     if a.shape != b.shape or not numpy.allclose(a, b, rtol=rt, atol=0):
-        ctx.violation("isosteric_enthalpy/changes-with-units", "the isosteric enthalpy changes when all isotherms are expressed in other common units", a=a[:4], b=b[:4], **info)
+        ctx.violation("isosteric_enthalpy/temperature-dependent-loading-basis/isosteres-not-at-constant-amount" if tdep else "isosteric_enthalpy/changes-with-units",
+                      "the isosteric enthalpy changes when all isotherms are expressed in other common units", a=a[:4], b=b[:4], **info)
 
 
 def finalize(ctx):
